@@ -67,8 +67,9 @@ theorem lookup_hit (dump hash : Str) (w : World) (h : (lookup dump hash w).1 = t
     split at h
     · rename_i ho
       simp only [decide_eq_true_eq] at h
-      obtain ⟨h1, h2, h3⟩ := h
+      obtain ⟨⟨h1, h2⟩, h3⟩ := h
       have hlen : (mkBuf 64).length = 64 := by simp [mkBuf]
+      rw [fileRead_len, hlen] at h2
       obtain ⟨c, hc, hr, hl⟩ := fileRead_full _ (mkBuf 64) _ (by rw [hlen]; decide) h1 (by rw [hlen]; exact h2)
       rw [osOpen_ok _ _ ha ho, osOpen_fs] at hc
       rw [hlen] at hr hl
